@@ -238,7 +238,8 @@ func (fs *FS) OpenFile(name string, flag int, perm hackpadfs.FileMode) (afFile h
 	}
 
 	if flag&hackpadfs.FlagTruncate != 0 {
-		return file, fs.wrapperErr("open", name, hackpadfs.TruncateFile(file, 0))
+		// truncate through the underlying file: O_TRUNC also applies to a handle opened read-only
+		return file, fs.wrapperErr("open", name, storeFile.Truncate(0))
 	}
 	return file, nil
 }
